@@ -224,6 +224,20 @@ CLAIMS["C17"] = dict(
     design_ref="DESIGN.md §3 C17",
 )
 
+CLAIMS["C18"] = dict(
+    technique="custom dataflow lint over type-checked HIR: per-method lockstep rule (cover / uniform / name / assemble) with binding-origin tracking through tuple patterns, `?`, Option adapters and closures",
+    category="other",
+    text=("For all 1423 struct-of-arrays method bodies (26 colour types, Alpha wrappers, hue newtypes, their iterators; push, pop, clear, "
+          "drain, with_capacity, get, get_mut, extend, from_iter, every IntoIterator impl, iter, iter_mut, Iter::next/next_back/size_hint/"
+          "count/len): every non-phantom component field of Self is operated on, all components get the same-named operation with the same "
+          "arguments (modulo the component's own field, e.g. value.<f>), that operation is the one the method stands for, and each field of "
+          "the returned colour/iterator is computed from the same-named component only (origins traced through let, tuple patterns, `?`, "
+          "Option::map/zip closures). This is the inductive step of 'all component collections have equal length and element i of "
+          "component f is colour i's f'; base cases build every component with the same constructor. Decides the lockstep structure, a "
+          "necessary condition of the Vec<Color> equivalence, not the equivalence over histories itself; std's Vec/slice semantics trusted."),
+    design_ref="DESIGN.md §3 C18",
+)
+
 NOT_YET = "check under construction (see DESIGN.md §7 build order); will be claimed when its rule is armed"
 NA = {}
 
